@@ -99,7 +99,12 @@ func calculateExecutionType(
 
 	switch methodT.GetType() {
 	case base.BLOCK:
-		return methodT.GetVal().(*base.T)
+		// a block without a result (`{}`) carries no type
+		if resultT, ok := methodT.GetVal().(*base.T); ok {
+			return resultT
+		}
+
+		return base.MakeUntyped()
 
 	case base.UNION:
 		var newVariants []base.T
@@ -168,10 +173,13 @@ func calculateExecutionType(
 
 	case base.BLOCK_RESULT_ARRAY:
 		blockT := m.parser.GetLastEvaluatedT()
-		blockResultT := blockT.GetVal().(*base.T)
 
 		arrayT := base.MakeAnyArray()
-		arrayT.AppendArrayVariant(*blockResultT)
+
+		// called without a block ([1, 2].collect): the element type is not known
+		if blockResultT, ok := blockT.GetVal().(*base.T); ok {
+			arrayT.AppendArrayVariant(*blockResultT)
+		}
 
 		return arrayT
 
